@@ -463,32 +463,54 @@ func ruleLogoutOnceUnderLock(c *Ctx) {
 	if f == nil {
 		return
 	}
+	scope := c.withHelpers(f) // Close and the unexported helpers it calls (dropSessionLocked)
+	funcs := map[*ssa.Function]bool{}
+	for _, g := range scope {
+		funcs[g] = true
+	}
 	la := &lockAnalysis{c: c, entry: map[*ssa.Function]map[string]bool{}, at: map[ssa.Instruction]map[string]bool{}}
-	la.run([]*ssa.Function{f}, map[*ssa.Function]bool{f: true})
+	la.run([]*ssa.Function{f}, funcs)
 	nLogout := 0
-	for _, site := range s.Find(f, lLogout) {
-		nLogout++
-		R.Ob(c.siteKey(site, "Logout under Conn.locker"), c.P.InstrPos(site), la.at[site]["Conn.locker"], "Conn.Close calls Logout without holding Conn.locker: a second Close (Server.Close against QUIT or the loop's exit) finds the session still set and logs it out again")
+	for _, g := range scope {
+		for _, site := range s.Find(g, lLogout) {
+			nLogout++
+			R.Ob(c.siteKey(site, "Logout under Conn.locker"), c.P.InstrPos(site), la.at[site]["Conn.locker"], "Conn.Close calls Logout without holding Conn.locker: a second Close (Server.Close against QUIT or the loop's exit) finds the session still set and logs it out again")
+		}
 	}
 	R.Ob("(*Conn).Close/logs out", c.P.Pos(f.Pos()), nLogout >= 1, "no Logout call found in Conn.Close")
 	nClear := 0
-	for _, st := range s.Find(f, "st:Conn.session") {
-		if _, _, v := storedField(st); !isNilConst(v) {
-			continue
+	for _, g := range scope {
+		g := g
+		for _, st := range s.Find(g, "st:Conn.session") {
+			if _, _, v := storedField(st); !isNilConst(v) {
+				continue
+			}
+			nClear++
+			R.Ob(c.siteKey(st, "session forgotten under Conn.locker"), c.P.InstrPos(st), la.at[st]["Conn.locker"], "Conn.Close clears the session outside Conn.locker")
+			// no explicit release of the lock between the entry and this store (in the function that stores; for a
+			// helper also in Close before the helper is called)
+			released := ""
+			st := st
+			chk := func(h *ssa.Function, target ssa.Instruction) {
+				allInstrs(h, func(in ssa.Instruction) {
+					if _, isDefer := in.(*ssa.Defer); isDefer {
+						return
+					}
+					if name, isLock, ok := lockOp(in); ok && !isLock && name == "Conn.locker" && reachesInstr(in, target) {
+						released = c.P.InstrPos(in)
+					}
+				})
+			}
+			chk(g, st)
+			if g != f {
+				for _, cs := range c.callersOf(g) {
+					if cs.Parent() == f {
+						chk(f, cs)
+					}
+				}
+			}
+			R.Ob(c.siteKey(st, "lock not released between reading and forgetting the session"), c.P.InstrPos(st), released == "", "Conn.locker is released at "+released+" before the session is forgotten: the session is logged out and cleared in two critical sections, another Close in between logs it out again (or the late clear wipes a newer session)")
 		}
-		nClear++
-		R.Ob(c.siteKey(st, "session forgotten under Conn.locker"), c.P.InstrPos(st), la.at[st]["Conn.locker"], "Conn.Close clears the session outside Conn.locker")
-		// no explicit release of the lock between the function's entry and this store
-		released := ""
-		allInstrs(f, func(in ssa.Instruction) {
-			if _, isDefer := in.(*ssa.Defer); isDefer {
-				return
-			}
-			if name, isLock, ok := lockOp(in); ok && !isLock && name == "Conn.locker" && reachesInstr(in, st) {
-				released = c.P.InstrPos(in)
-			}
-		})
-		R.Ob(c.siteKey(st, "lock not released between reading and forgetting the session"), c.P.InstrPos(st), released == "", "Conn.locker is released at "+released+" before the session is forgotten: the session is logged out and cleared in two critical sections, another Close in between logs it out again (or the late clear wipes a newer session)")
 	}
 	R.Ob("(*Conn).Close/forgets the session", c.P.Pos(f.Pos()), nClear >= 1, "Conn.Close does not clear Conn.session directly (setSession takes the lock again: a second critical section)")
 }
